@@ -163,6 +163,64 @@ func RuleBCD(r *Report, p *Program) {
 	if bad == "" && len(okBytes) != 100 {
 		bad = fmt.Sprintf("%d byte values decode, expected 100", len(okBytes))
 	}
+	// B3: nothing in either function is reserved for longer inputs. The per-symbol verdicts above hold for every
+	// length only if the code that handles a symbol is the code that was walked: every block of Encode and Decode
+	// (and of the package's helpers they use) is entered by the walks for inputs of 0, 1 and 2 symbols.
+	{
+		r.Rule("B3", "every block of Encode and Decode is exercised by inputs of at most two symbols: no code path is reserved for longer inputs (a length-specialised fast path would escape the per-symbol analysis)", 2)
+		for _, fn := range []*ssa.Function{enc, dec} {
+			cov := map[*ssa.BasicBlock]bool{}
+			pname := fn.Params[0].Name()
+			for n := int64(0); n <= 2; n++ {
+				wc := NewWalker(p)
+				wc.LoopFuel = 4
+				wc.Finite = true
+				wc.Covered = cov
+				wc.Inline = inlineHelpers([]*ssa.Package{pkgOf(fn)}, func(f *ssa.Function) bool { return f.Object() != nil && f.Object().Exported() })
+				wc.Assume = map[string]IntervalSet{"len(" + pname + ")": {{n, n}}}
+				wc.AssumeBool = map[string]bool{}
+				for i := int64(1); i <= 3; i++ {
+					wc.AssumeBool[fmt.Sprintf("more(%s)#%d", pname, i)] = i <= n
+				}
+				wc.Walk(fn, []*Term{{Op: "param", Name: pname, Typ: fn.Params[0].Type()}}, nil)
+			}
+			missing := ""
+			total := 0
+			var scan func(f *ssa.Function, seen map[*ssa.Function]bool)
+			scan = func(f *ssa.Function, seen map[*ssa.Function]bool) {
+				if f == nil || seen[f] || f.Blocks == nil {
+					return
+				}
+				seen[f] = true
+				for _, blk := range f.Blocks {
+					total++
+					if !cov[blk] && missing == "" && len(blk.Instrs) > 0 {
+						// a block that only panics (unreachable default) is not a code path for valid or invalid input
+						if _, isPanic := blk.Instrs[len(blk.Instrs)-1].(*ssa.Panic); isPanic {
+							continue
+						}
+						missing = p.Pos(blk.Instrs[0].Pos())
+						if missing == "-" {
+							for _, in := range blk.Instrs {
+								if in.Pos().IsValid() {
+									missing = p.Pos(in.Pos())
+									break
+								}
+							}
+						}
+					}
+				}
+				for _, cal := range staticCallees(f) {
+					if pkgOf(cal) == pkgOf(fn) && (cal.Object() == nil || !cal.Object().Exported()) {
+						scan(cal, seen)
+					}
+				}
+			}
+			scan(fn, map[*ssa.Function]bool{})
+			r.Check(missing == "", "B3", "bcd."+fn.Name(), p.Pos(fn.Pos()), fmt.Sprintf("%d blocks, all entered for inputs of 0..2 symbols", total),
+				"code at "+missing+" is not reached by any input of up to two symbols: a path reserved for longer inputs is not covered by the per-symbol analysis")
+		}
+	}
 	r.Check(bad == "", "B2", "bcd.Decode", p.Pos(dec.Pos()), fmt.Sprintf("%d paths, 100 digit pairs in high-then-low order, the other 156 byte values rejected", len(paths)), bad)
 }
 
